@@ -82,13 +82,14 @@ fn text_char(rng: &mut Rng) -> u32 {
 }
 
 fn text(rng: &mut Rng, maxlen: u64) -> Vec<u32> {
-    let n = 1 + rng.below(maxlen);
+    // now and then a long run: behaviour that differs for the 2nd wrap / the 30th character of one call
+    let n = if rng.chance(1, 24) { 7 + rng.below(40) } else { 1 + rng.below(maxlen) };
     (0..n).map(|_| text_char(rng)).collect()
 }
 
 /// printable text only (safe inside any wire context)
 fn plain(rng: &mut Rng, maxlen: u64) -> Vec<u32> {
-    let n = 1 + rng.below(maxlen);
+    let n = if rng.chance(1, 24) { *rng.pick(&[7u64, 15, 16, 17, 31, 33, 64, 65, 130, 257, 600]) } else { 1 + rng.below(maxlen) };
     (0..n)
         .map(|_| match rng.below(10) {
             0 => *rng.pick(WIDE),
